@@ -158,4 +158,11 @@ namespace vt
     elem operator() (void);
     int state;
   };
+
+  // Caller's unary predicate (erase_if).
+  struct pred
+  {
+    bool operator() (const elem&) const;
+    int state;
+  };
 }
